@@ -5,16 +5,16 @@ import json, os, subprocess
 CLAIMED = {
  # id: (level text, level note, design ref)
  "C12": ("Bounded symbolic execution (go/ssa -> SMT, z3) of binpatch Add/Dump/Load/Apply/applyRewrite on symbolic patch sets and file bytes: for every input inside the harness bounds the applied result equals the reference splice, Dump/Load round-trips, and malformed blobs are rejected without header-sized allocation. Counterexamples are replayed natively before being reported.",
-         "Trusted: the SSA->SMT executor and its intrinsics (encoding/binary layout, in-memory os.File model, sort interpreted), z3 4.8.12. Bounds: <=3 patches, blobs <=2 bytes, files <=6 bytes, Load on <=40 arbitrary bytes.",
+         "Trusted: the SSA->SMT executor and its intrinsics (encoding/binary layout, in-memory os.File model, sort interpreted), z3. Bounds: <=3 patches, blobs <=2 bytes, files <=6 bytes, Load on <=40 arbitrary bytes.",
          "DESIGN.md §4 C12"),
  "C13": ("Bounded symbolic execution of the real output strategies (atomicfile.WriteFile / WriteInPlace+Commit, binpatch rewrite) over an in-memory model of the os package in which the crash index (process killed before FS step k) and per-call OS failures are symbolic choices: at every crash point and after every handled error the destination holds exactly OLD or exactly NEW, never disappears if it existed, the input is unchanged, and no *.tmp sibling remains after a return.",
          "Trusted: the engine's os model (rename atomic and replacing, unlink/close semantics, a failing unlink is not injected), z3. Bounds: payload <=3 bytes, <=2 patches, <=12 FS steps. Durability (fsync/power loss) is outside: the property is about process kill.",
          "DESIGN.md §4 C13"),
- "C11": ("Each byte-level parser entry point in reach - cabfile.Digest, authenticode.DigestPE (short prefixes, full header, 1-2 sections, odd optional-header sizes), the PE certificate-table walk, zipslicer.ReadWithDirectory / Read, binpatch.Load, csblob.parseSuper / parseCodeDirectory, dmg.Open, signxap.removeSignature - is symbolically executed on an arbitrary byte buffer of bounded length; no panic, no allocation above 4 MiB+16*len sized by input, loops bounded, decided by z3 on every feasible path.",
+ "C11": ("Each byte-level parser entry point in reach - cabfile.Digest, authenticode.DigestPE (short prefixes, full header, 1-2 sections, odd optional-header sizes), the PE certificate-table walk, zipslicer.ReadWithDirectory / Read, binpatch.Load, csblob.parseSuper / parseCodeDirectory, dmg.Open, signxap.removeSignature, the compound-file reader (comdoc.ReadFile / ListDir / ReadStream: header, MSAT chain, SAT, short SAT, directory chain and tree, stream chains) - is symbolically executed on an arbitrary byte buffer of bounded length; no panic, no allocation above 4 MiB+16*len sized by input, loops bounded, decided by z3 on every feasible path.",
          "Trusted: engine + intrinsics, z3. Bounds: input lengths and the layout fields fixed per harness (documented there; every symbolic length cut is listed in evidence bound_cuts). Text, XML, ASN.1, PGP, tar/ar parsers, reflection-based APK decoder: outside.",
          "DESIGN.md §4 C11"),
- "C09": ("Stream consumers under every split of the stream into reads/writes (split points and read sizes symbolic): PE checksum independent of write split for every field position; PE section hasher (image digest and page-hash table) independent of short reads (page size scaled through the hasher's own buffers); APK merkle hasher chunk digests independent of write split and equal to the spec chunking (block constant scaled via overlay); compound-file stream reader delivers the chain's bytes in order for every sequence of destination sizes.",
-         "Trusted: engine, hash injectivity, z3. Bounds: streams of 2-3 blocks, 3 writes / arbitrary read sizes. Codecs (gzip/snappy), tar framing, HTTP retry/failover are outside.",
+ "C09": ("Stream consumers under every split of the stream into reads/writes (split points and read sizes symbolic): PE checksum independent of write split for every field position; PE section hasher (image digest and page-hash table) independent of short reads (page size scaled through the hasher's own buffers); APK merkle hasher chunk digests independent of write split and equal to the spec chunking (block constant scaled via overlay); compound-file stream reader delivers the chain's bytes in order for every sequence of destination sizes; the zip upload transform (ZipToTar, real archive/tar) is repeatable and, read back through ReadZipTar under symbolic read sizes, yields the member list, offsets and contents of the file itself.",
+         "Trusted: engine, hash injectivity, z3. Bounds: streams of 2-3 blocks, 3 writes / arbitrary read sizes. Codecs (gzip/snappy), HTTP retry/failover are outside.",
          "DESIGN.md §4 C09"),
  "C05": ("Partial: relic's digest kernels against reference computations written from the specifications inside the harness: PE checksum (whole-buffer reference for short files + one-word inductive step from an arbitrary reachable state: any length), Authenticode image hash (file minus CheckSum, minus directory entry 4, minus certificate table, zero padded to 8), APK v2 chunk digests (0xa5 || len32 || chunk per block, block constant scaled 1 MiB -> 4 through a source overlay).",
          "Trusted: the references (read from the PE/COFF, Authenticode and APK v2 documents), engine, z3, hash injectivity. External verifiers (jarsigner, openssl, gpg, dpkg) cannot be executed symbolically: outside.",
@@ -25,14 +25,14 @@ CLAIMED = {
  "C04": ("The real config.GetKey, authmodel.Middleware + CertificateInfo.Allowed, server.serveSign / serveGetKey / serveListKeys and realip.trustedClient / Middleware / PeerCertificates are executed over every configuration in the bound (keys present/absent, aliases to any name incl. self, other aliases, missing names; token present/absent; role sets; hide flags) x caller role sets x requested names, and over every combination of peer address and X-Forwarded-For / Ssl-Client-Cert headers in the bound: a token is touched (signing or certificate disclosure) only for a caller sharing a role with the resolved entry (one alias hop), everything else is refused before any token call, GetKey never panics, /list_keys returns exactly the visible signable names, and a peer outside the trusted-proxy list is recorded as itself with its own TLS certificates whatever headers it sends.",
          "Trusted: engine, opaque logging, json identity model (real json natively), z3. Bounds: 2 keys / 1 role (quick), 3 keys or 2 roles (thorough); hop strings from a fixed set of addresses. TLS handshake, x509 verification in ClientConfig.Match, OPA policy authenticator: outside.",
          "DESIGN.md §4 C04"),
- "C17": ("Differential harnesses against references written from APPNOTE.TXT: data-descriptor width for every (crc, csize, usize) x {16,24}-byte descriptor followed by arbitrary bytes; central-directory header build -> parse round trip and idempotence over fully symbolic fields (both sides of 2^32-1); ZIP64 extended-information record with every combination of escaped fields; re-emission of an unmodified directory equals the original bytes; end-of-directory location with an archive comment.",
-         "Trusted: the APPNOTE references in the harnesses, engine, z3. Known findings listed in known_findings.jsonl (24-byte descriptor with zero uncompressed size; archive comment). Deflate, CRC values, real Go/Python readers as programs are outside.",
+ "C17": ("Differential harnesses against references written from APPNOTE.TXT: data-descriptor width for every (crc, csize, usize) x {16,24}-byte descriptor followed by arbitrary bytes; central-directory header build -> parse round trip and idempotence over fully symbolic fields (both sides of 2^32-1); ZIP64 extended-information record with every combination of escaped fields; re-emission of an unmodified directory equals the original bytes; end-of-directory location with an archive comment; an archive zipslicer wrote itself (NewFile members with/without descriptors, empty and non-empty, WriteDirectory) is read back with sizes that add up to the next member and can be re-indexed a second time.",
+         "Trusted: the APPNOTE references in the harnesses, engine, z3. Known findings listed in known_findings.jsonl (24-byte descriptor of an empty member followed by a gap; archive comment). Deflate, CRC values, real Go/Python readers as programs are outside.",
          "DESIGN.md §4 C17"),
  "C20": ("One inductive step of the real healthCheck from an arbitrary state satisfying status = max(0, N - consecutive failures) (N any threshold >= 1, <=3 tokens with arbitrary ping outcomes) re-establishes the invariant, which covers histories of any length; Healthy() is compared with its specification over symbolic (disabled, elapsed, interval, status) on a frozen symbolic clock; healthCheckLoop is executed with the Closed channel closed and a bounded number of timer events and must return (loop-bound = hang finding).",
          "Trusted: engine (select = symbolic choice among ready cases; timers fire at most a harness-given number of times; frozen clock), opaque logging/metrics, z3. Wall-clock timers, prometheus gauges, log text are outside.",
          "DESIGN.md §4 C20"),
- "C15": ("The real worker.doRetry + doOnce run against a harness http.RoundTripper whose per-attempt outcome (success, retryable / key-usage / permanent token error, HTTP 503 / 400, unexpected EOF, connection refused, timeout, malformed reply) and the caller's cancellation point are symbolic choices: attempts <= configured retries, success iff the last executed attempt succeeded, retry only after a transient failure, classification (KeyUsageError, ResponseError, sentinel errors) intact, transient failures retried to the limit. tokencache.Cache.GetKey from an arbitrary cache state: a pinned key id is never served from a cached key with another id, never writes the cache, expired entries are not served, mutex released.",
-         "Trusted: engine (context model: a timeout eventually fires, no goroutines; http.Client.Do = Transport.RoundTrip with url.Error wrapping; json identity), z3. Bounds: retries <=3 (4 thorough; 0 = default 5). The worker-side handler (cookie check) lives in a cgo package (miekg/pkcs11) and is not loaded; real HTTP / process supervision are outside.",
+ "C15": ("The real worker.doRetry + doOnce run against a harness http.RoundTripper whose per-attempt outcome (success, retryable / key-usage / permanent token error, HTTP 503 / 400, unexpected EOF, connection refused, timeout, malformed reply) and the caller's cancellation point are symbolic choices: attempts <= configured retries, success iff the last executed attempt succeeded, retry only after a transient failure, classification (KeyUsageError, ResponseError, sentinel errors) intact, transient failures retried to the limit. tokencache.Cache.GetKey from an arbitrary cache state: a pinned key id is never served from a cached key with another id, never writes the cache, expired entries are not served, mutex released. The worker process' HTTP handler (cmdline/workercmd): any request whose Auth-Cookie differs from the per-process secret gets 403 with the token untouched; with the secret, a pinned key id and the request digest reach the backend unchanged and key-usage / not-implemented / other failures come back with the right retry classification.",
+         "Trusted: engine (context model: a timeout eventually fires, no goroutines; http.Client.Do = Transport.RoundTrip with url.Error wrapping; json identity), z3. Bounds: retries <=3 (4 thorough; 0 = default 5). Secrets of 2 bytes, sent cookies of 0-3 bytes. Real HTTP / process supervision, the pkcs11 fatal-error table (cgo constants) are outside.",
          "DESIGN.md §4 C15"),
  "C01": ("Partial (structural round trip, PE and CAB): for every well-formed PE32 image (one section, optional header gap, overlay, optionally already signed) and cabinet (unsigned, signed, or with a pre-reserved signature area) in the bound, with all non-layout bytes symbolic, and every signature blob: Digest -> MakePatch -> patch applied (C12 semantics) -> Digest succeeds; the verifier-side view (findSignatures / certificate-table walk up to the CMS check, cabinet parse) finds exactly the embedded blob and recomputes the digest that was signed.",
          "Trusted: engine, hash modelled injective, patch application per C12; the CMS check is a stub in the verifier-walk harness (no native replay there). The CMS blob itself (crypto, ASN.1), the other formats, key types and client/server transport are outside this revision's claim.",
@@ -43,20 +43,20 @@ CLAIMED = {
  "C03": ("Partial (PE, CAB, ZIP re-index + patch semantics): signing changes only signature metadata - PE headers, section bodies, overlay and existing alignment bytes are byte-identical, only the directory entry and the (8-aligned) certificate table change; cabinet folder data is identical and folder offsets move by exactly the header growth/shrink (+24 / 0 / -padding); re-indexing a ZIP keeps every kept member's bytes at the offset the new directory records, and archives with leading data or gaps are refused. Byte-exact patch application itself is C12.",
          "Trusted: engine; the format models in the harnesses (PE/COFF, MS cabinet, APPNOTE). Independent third-party readers as programs, CFB payload (C18 covers allocation), text formats are outside.",
          "DESIGN.md §4 C03"),
- "C08": ("Partial (PE, CAB): the content digest is identical for an unsigned file, its signed form and its re-signed form (sign^2 with arbitrary blobs of differing padded sizes), the second signature replaces the first (table / signature bytes and sizes in the headers), payload equals the original; for PE the directory entry follows the table, for CAB all three layouts (unsigned, signed, pre-reserved).",
+ "C08": ("Partial (PE, CAB, XAP): the content digest is identical for an unsigned file, its signed form and its re-signed form (sign^2 with arbitrary blobs of differing padded sizes), the second signature replaces the first (table / signature bytes and sizes in the headers), payload equals the original; for PE the directory entry follows the table, for CAB all three layouts (unsigned, signed, pre-reserved). XAP: DigestXapTar on the directory-first tar stream (real archive/tar) gives the unsigned file's digest for a signed file and a patch replacing exactly the old signature; that the client-side transform refuses a signed XAP is a recorded known finding.",
          "Trusted: engine, hash injectivity. n-fold histories beyond 2 follow by induction from digest invariance + replacement (argued, not run). Other formats outside this revision.",
          "DESIGN.md §4 C08"),
  "C06": ("The real server.serveSign -> signinit.Init -> mod.Sign -> signinit.PublishAudit -> audit.AppendTo -> rw.Write chain runs with a fake token/signer and the audit file on the engine's os model with symbolic OS failures: a signature body is written only after exactly one record was appended as one newline-terminated line (existing records kept) naming key, signature type, digest, file name and client address; if the sink or the signer fails no body is written.",
          "Trusted: engine os model (O_APPEND write = one step), json identity model (real json natively), opaque logging, z3. AMQP sink, concurrent writers (kernel O_APPEND atomicity, C14 territory) and the standalone command are outside this revision.",
          "DESIGN.md §4 C06"),
- "C07": ("Partial: x509tools.SameKey - the guard LoadTokenCertificates, LoadX509KeyPair, the PKCS#7 builder and xmldsig use to refuse a certificate that does not belong to the key - is decided over symbolic RSA (modulus, exponent) and ECDSA (x, y) keys, bare or wrapped in a crypto.Signer: true exactly for same algorithm and equal components, symmetric, false for unsupported key types.",
-         "Trusted: big.Int modelled as a 64-bit stand-in, engine, z3. Certificate parsing (PEM/DER/PKCS#12), the builder call sites and signature-value-verifies-under-leaf (crypto) are outside this revision.",
+ "C07": ("Partial: the three guards and their predicate. certloader.LoadTokenCertificates (X.509 from file or blob, PGP) returns a bundle only when the leaf's / PGP primary key's public key is the token key's, with the chain beginning with that leaf; pkcs7.SignatureBuilder.Sign and xmldsig.Sign emit nothing and do not use the key when the first certificate belongs to another key, and what they emit lists / names that leaf and carries exactly the key's output over the digest they were given (canonical SignedInfo for XML). x509tools.SameKey - the guard LoadTokenCertificates, LoadX509KeyPair, the PKCS#7 builder and xmldsig use to refuse a certificate that does not belong to the key - is decided over symbolic RSA (modulus, exponent) and ECDSA (x, y) keys, bare or wrapped in a crypto.Signer: true exactly for same algorithm and equal components, symmetric, false for unsupported key types.",
+         "Trusted: big.Int modelled as a 64-bit stand-in, engine, z3. PEM/DER/OpenPGP parsers are stubs returning a certificate with an arbitrary key (LoadTokenCertificates harness has no native replay); PKCS#12, LoadX509KeyPair, signers that bypass the builder (APK v2, XAR, cosign) and signature-value-verifies-under-leaf (crypto) are outside.",
          "DESIGN.md §4 C07"),
- "C19": ("Narrow partial: the r||s encoding lib/xmldsig emits for ECDSA (EcdsaSignature.PackFixed) is 2*ceil(bits/8) bytes for every r, s that fit the curve size, big-endian r then s, and UnpackEcdsaSignature inverts it.",
-         "Trusted: big.Int as 64-bit stand-in (curve sizes 1..8 bytes stand for 32/48/66), engine, z3. Canonicalisation proper (etree DOM, W3C exc-c14n) is outside: external reference program, string/DOM code.",
+ "C19": ("Partial: xmldsig.SerializeCanonical on a manifest-shaped subtree (default + prefixed namespace declared on the element or an ancestor, attributes, text; attribute values and text symbolic over every character class canonical XML treats specially) equals the exclusive canonical form written out from the W3C rules, independently of attribute order, comments, processing instructions, an unused namespace declaration and the ancestor carrying the declaration (real beevik/etree serialiser executed); attributes in two namespaces sort by namespace URI. The r||s encoding lib/xmldsig emits for ECDSA (EcdsaSignature.PackFixed) is 2*ceil(bits/8) bytes for every r, s that fit the curve size, big-endian r then s, and UnpackEcdsaSignature inverts it.",
+         "Trusted: big.Int as 64-bit stand-in (curve sizes 1..8 bytes stand for 32/48/66), engine, z3. Canonicalisation is checked for the document shapes in the harness (one nesting level, 1-2 symbolic characters per value), not for arbitrary XML; the XML parser (input side), InclusiveNamespaces, xml:* attribute inheritance and the public-key-token / publisher fields are outside.",
          "DESIGN.md §4 C19"),
- "C10": ("Partial: ParseResponse / SanityCheckToken / unpackTokenInfo with the ASN.1 decoder, CMS signature check and content extraction as nondeterministic stubs: accepted only if decoded without trailing bytes, status granted(WithMods), token signature verifies, token info decodes, nonce and imprint equal the request's; no panic on any stub behaviour. tsClient.Timestamp with the per-URL exchange stubbed: authorities tried in configured order (URLs / MsURLs / named pool), first token wins and nothing is contacted afterwards, all failing => error (never nil,nil), cancelled caller stops the scan.",
-         "Trusted: stub contracts, big.Int 64-bit stand-in, engine, z3. Stubbed harnesses have no native replay: counterexamples are re-executed concretely in the interpreter. Legacy Microsoft reply parsing, verification-side time handling, X.509 validity windows: not covered.",
+ "C10": ("Partial: ParseResponse / SanityCheckToken / unpackTokenInfo with the ASN.1 decoder, CMS signature check and content extraction as nondeterministic stubs: accepted only if decoded without trailing bytes, status granted(WithMods), token signature verifies, token info decodes, nonce and imprint equal the request's; no panic on any stub behaviour. tsClient.Timestamp with the per-URL exchange stubbed: authorities tried in configured order (URLs / MsURLs / named pool), first token wins and nothing is contacted afterwards, all failing => error (never nil,nil), cancelled caller stops the scan. Verification side: pkcs9.Verify accepts a token only with exactly one signer, an imprint that is the digest of exactly this signature value (injective hash model) and a verifying token signature, and reports the token's time; TimestampedSignature.VerifyChain checks the time-stamp chain first (time-stamping usage), fails if it fails, and judges the signer chain at exactly the attested time (zero = now without a time-stamp), over symbolic validity windows.",
+         "Trusted: stub contracts, big.Int 64-bit stand-in, engine, z3. Stubbed harnesses have no native replay: counterexamples are re-executed concretely in the interpreter. Legacy Microsoft reply parsing, x509 chain building itself (stub implements the validity window only), cache and rate limiter: not covered.",
          "DESIGN.md §4 C10"),
 }
 
@@ -82,7 +82,7 @@ def main():
             "engine": "gosmt",
             "level_claimed": {"category": "model_checking", "text": text, "design_ref": ref},
             "level_note": note,
-            "technique": "bounded symbolic execution of the real Go SSA (go/ssa) into SMT-LIB bit-vectors, decided by z3; sat models replayed natively",
+            "technique": "bounded symbolic execution of the real Go SSA (go/ssa) into SMT-LIB bit-vectors, decided by z3 (5.1.0 primary; 4.8.12 and cvc5 retry unknowns); sat models replayed concretely and natively before being reported",
         })
     na = []
     for pid in props:
@@ -102,7 +102,7 @@ def main():
             "source_commits": hooks,
             "add_only": True,
         },
-        "engines": [{"name": "gosmt", "path": "/verif/engine", "serves_properties": sorted(CLAIMED), "kind_free_text": "bounded symbolic executor for Go SSA (x/tools v0.29.0 go/ssa) emitting SMT-LIB2 bit-vector queries to an incremental z3; replay of models through go test overlays"}],
+        "engines": [{"name": "gosmt", "path": "/verif/engine", "serves_properties": sorted(CLAIMED), "kind_free_text": "bounded symbolic executor for Go SSA (x/tools v0.29.0 go/ssa) emitting SMT-LIB2 bit-vector queries to incremental z3 5.1.0 processes (z3 4.8.12 / cvc5 as retry portfolio); replay of models through go test overlays"}],
         "checks": checks,
         "not_applicable": na,
         "notes": "All checks: ./check <id> <quick|thorough>. exit 0 = held within bounds; exit 1 + VIOLATION line = solver counterexample reproduced natively; exit 3 = inconclusive (unsupported construct / unknown / unwinding bound), never reported as success.",
